@@ -8,6 +8,7 @@ package method
 // method.isError run from the current source.
 
 import (
+	"go/constant"
 	"go/token"
 	"go/types"
 	"regexp"
@@ -28,6 +29,8 @@ const (
 	verifRStruct = iota
 	verifRError
 	verifRInt
+	verifRNamedErrorLike // type Failure error: same underlying interface, but not the built-in error
+	verifRErrorLikeIface // interface{ Error() string }
 	verifRKinds
 )
 
@@ -70,7 +73,11 @@ func VerifHarness_C14_Parse() {
 	rkinds := make([]int, m)
 	var results []*types.Var
 	for i := 0; i < m; i++ {
-		rk := nondetChoice("result.kind", verifRKinds)
+		nk := verifRKinds
+		if m == 3 {
+			nk = 2 // three results are always invalid: struct/error suffice
+		}
+		rk := nondetChoice("result.kind", nk)
 		rkinds[i] = rk
 		var t types.Type
 		switch rk {
@@ -78,6 +85,10 @@ func VerifHarness_C14_Parse() {
 			t = verifNamed("R", verifUserPkg, types.NewStruct(nil, nil))
 		case verifRError:
 			t = types.Universe.Lookup("error").Type()
+		case verifRNamedErrorLike:
+			t = verifNamed("Failure", verifUserPkg, types.Universe.Lookup("error").Type().Underlying())
+		case verifRErrorLikeIface:
+			t = types.Universe.Lookup("error").Type().Underlying()
 		default:
 			t = types.Typ[types.Int]
 		}
@@ -212,10 +223,19 @@ func VerifHarness_C14_Parse() {
 // VerifHarness_C14_NotAFunction: a variable that is not a function is rejected, not mis-generated.
 func VerifHarness_C14_NotAFunction() {
 	var t types.Type = types.Typ[types.Int]
-	if nondetChoice("kind", 2) == 1 {
-		t = types.NewPointer(types.NewStruct(nil, nil))
+	sig := types.NewSignatureType(nil, nil, nil, types.NewTuple(types.NewParam(token.NoPos, verifUserPkg, "a", types.Typ[types.Int])), types.NewTuple(types.NewParam(token.NoPos, verifUserPkg, "", types.Typ[types.String])), false)
+	var obj types.Object
+	switch nondetChoice("kind", 4) {
+	case 0:
+		obj = types.NewVar(token.NoPos, verifUserPkg, "Convert", t)
+	case 1:
+		obj = types.NewVar(token.NoPos, verifUserPkg, "Convert", types.NewPointer(types.NewStruct(nil, nil)))
+	case 2:
+		// a defined func type is a type, not a function
+		obj = verifNamed("Hook", verifUserPkg, sig).Obj()
+	default:
+		obj = types.NewConst(token.NoPos, verifUserPkg, "Convert", types.Typ[types.Int], constant.MakeInt64(1))
 	}
-	obj := types.NewVar(token.NoPos, verifUserPkg, "Convert", t)
 	_, err := Parse(obj, &ParseOpts{ErrorPrefix: "error", OutputPackagePath: "example.org/generated"}, EmptyLocalOpts)
 	verifReach("done")
 	verifAssert("non-function-variable-is-rejected", err != nil)
